@@ -60,6 +60,13 @@ def cipher_cases(ch):
                 if len(enc_records(cand)) in (target, target - 1, target + 1):
                     cases.append(("boundary", cand))
     out = []
+    # record data of 1008..1100 bytes: the 6-bit list index wraps after 64 chunks; whatever the BMC keeps serving, the
+    # loop must stop after 65 requests (C16_chunk_loop_at_most_65_requests) - a BMC that always answers with a full chunk
+    for target in (1008, 1023, 1024, 1025, 1040, 1100):
+        recs = []
+        while len(enc_records(recs)) < target:
+            recs += gen_recs(rng, 1)
+        out.append(("oversize", enc_records(recs)[:target], None))
     for kind, recs in cases:
         data = enc_records(recs)
         out.append((kind, data, expand(recs)))
@@ -103,6 +110,9 @@ def run(ch, build):
                 ch.violation(desc, {"scenario": scn, "what": "cipher suite list differs from the records' expansion", "impl": impl, "want": want})
             if nreq != len(data) // 16 + 1:
                 ch.violation(desc, {"scenario": scn, "what": "%d requests for %d bytes of record data" % (nreq, len(data))})
+        if res.get("runaway") or nreq > 65:
+            ch.violation(desc, {"scenario": scn, "what": "%d requests: the chunk loop does not stop after the 65 list indices the field can address" % nreq})
+            continue
         m_n, m_res = mo.split(" ", 1)
         if (m_res.strip() if m_res.startswith("ok") else "err") != impl or int(m_n) != nreq:
             ch.corr_break(desc, {"scenario": scn, "impl": impl, "requests": nreq, "model": mo})
